@@ -117,5 +117,3 @@ func vBitPoolRecycle(n int) {
 
 func VerifC07_BitPoolGet8()      { vBitPoolGet(8) }
 func VerifC07_BitPoolRecycle8()  { vBitPoolRecycle(8) }
-func VerifC07_BitPoolGet64()     { vBitPoolGet(64) }
-func VerifC07_BitPoolRecycle64() { vBitPoolRecycle(64) }
